@@ -3,4 +3,4 @@ CONSTANTS
   MaxName = 255
 INIT Init
 NEXT Next
-INVARIANTS KeyTagOK KeyTagKnown CoverOK ChainOK ZoneOK ValidPlainOK ValidWrapOK ValidKnown IHOK B32OK B32Order DSOK HexOK KeyEncOK KeyFileOK KeyFileKnown
+INVARIANTS KeyTagOK KeyTagKnown CoverOK ChainOK ZoneOK ValidPlainOK ValidWrapOK ValidKnown IHOK B32OK B32Order DSOK HexOK KeyEncOK KeyFileOK KeyFileKnown SpellOK SpreadOKInv SpreadKnown
